@@ -125,3 +125,44 @@ Definition model_view (low high : bus) (c : case) : res (option Z) * res Z :=
   | CPhys d a _ => (do b <- model_bus low high d; addr_physical b a, Err EOther)
   | CAdd d a n _ => (Err EOther, do b <- model_bus low high d; addr_add b a n)
   end.
+
+(** ** Exhaustive sweeps (thorough tier): one case = one bank of 65536 addresses, compared through
+    an order-sensitive checksum of the results (value + 2, 1 for "no offset", 0 for "rejected"). *)
+Definition sweep_prime : Z := 2147483629.
+Inductive sweepfn := SwPhys | SwAdd (n : Z).
+
+Definition code_opt (r : res (option Z)) : Z := match r with Ok (Some v) => v + 2 | Ok None => 1 | _ => 0 end.
+Definition code_z (r : res Z) : Z := match r with Ok v => v + 2 | _ => 0 end.
+
+Definition sweep_step (f : Z -> Z) (st : Z * Z) : Z * Z :=
+  let '(i, acc) := st in (i + 1, (acc * 31 + (i + 1) * f i) mod sweep_prime).
+Definition sweep (f : Z -> Z) (base : Z) : Z :=
+  snd (Pos.iter (sweep_step (fun i => f (base + i))) (0, 0) 65536%positive).
+
+Definition model_code (b : bus) (fn : sweepfn) (a : Z) : Z :=
+  match fn with
+  | SwPhys => code_opt (addr_physical b a)
+  | SwAdd n => code_z (addr_add b a n)
+  end.
+
+(** the specification side of a sweep: the textbook closed forms, on the addresses the property
+    speaks about (everything, except LoROM ROM addresses below the window) *)
+Definition spec_phys (high : bool) (a : Z) : res (option Z) := if high then hirom_spec a else lorom_spec a.
+Definition excluded (high : bool) (a : Z) : bool :=
+  negb high && (a mod 65536 <? 32768) && (match lorom_spec a with Ok (Some _) => true | _ => false end).
+Definition spec_code (high : bool) (a : Z) : Z := if excluded high a then 0 else code_opt (spec_phys high a).
+
+(** [impl] = checksum of the implementation's results over the bank; [impl_in] = the same with the
+    excluded addresses counted as 0 (physical only). *)
+Inductive sweepcase := Sweep (high : bool) (bank : Z) (fn : sweepfn) (impl impl_in : Z).
+
+Definition check_sweep (low high : bus) (c : sweepcase) : bool * bool :=
+  let '(Sweep h bank fn impl impl_in) := c in
+  let b := if h then high else low in
+  (sweep (model_code b fn) (bank * 65536) =? impl,
+   match fn with SwPhys => sweep (spec_code h) (bank * 65536) =? impl_in | SwAdd _ => true end).
+
+(** Cases of both kinds in one list. *)
+Inductive anycase := Plain (c : case) | Swept (c : sweepcase).
+Definition check_any (low high : bus) (c : anycase) : bool * bool :=
+  match c with Plain c => check low high c | Swept c => check_sweep low high c end.
